@@ -64,6 +64,15 @@ func (w *World) pxIndexProof(px *PX, ia *ssa.IndexAddr, fr *pxFrame, st *pxState
 		how = "a test against " + lenKey
 	}
 	if !upper {
+		// a slice made in this call: its length is the term it was made with
+		for _, pfx := range []string{"mklen:", "mklenx:"} {
+			if ml := st.vals[pfx+base.key]; ml != nil && rel(it.key, ml.key) {
+				upper = true
+				how = "a test against the length the slice was made with (" + ml.key + ")"
+			}
+		}
+	}
+	if !upper {
 		// uint(i) < uint(len): one unsigned comparison decides both sides, provided
 		// the conversion keeps every bit of the index (same width)
 		ib, _, iok := intTypeInfo(w, it.T)
@@ -85,6 +94,21 @@ func (w *World) pxIndexProof(px *PX, ia *ssa.IndexAddr, fr *pxFrame, st *pxState
 			upper = true
 			how = "the length range " + L.String()
 		}
+	}
+	if os.Getenv("HLINT_IDXDBG") != "" && !upper {
+		ml := st.vals["mklenx:"+base.key]
+		mk := "-"
+		if ml != nil {
+			mk = ml.key
+		}
+		var ks []string
+		for k := range st.env {
+			if strings.Contains(k, it.key) {
+				ks = append(ks, k+"="+st.env[k].String())
+			}
+		}
+		sort.Strings(ks)
+		fmt.Fprintf(os.Stderr, "IDXDBG base=%s mklen=%s idx=%s facts=%v\n", base.key, mk, it.key, ks)
 	}
 	fact = fmt.Sprintf("index %s ∈ %s: lower bound proven=%v, upper bound by %s=%v", it.key, I, lower, map[bool]string{true: how, false: "a test against " + lenKey}[upper], upper)
 	return
